@@ -59,7 +59,9 @@ bool Parser::parseExpression(ExpressionSyntax*& expr)
 {
     DBG_THIS_RULE();
 
-    DepthControl _(DEPTH_OF_EXPRS_);
+    DepthControl _(DEPTH_OF_EXPRS_,
+                   MAX_DEPTH_OF_EXPRS,
+                   "maximum depth of expressions reached");
     return parseExpressionWithPrecedenceComma(expr);
 }
 
